@@ -126,6 +126,13 @@ class ListProxy(list, ContainerValueMixin):
                 cfg._parent = self.cfg
                 cfg.load_tree(value)  # type: ignore
             elif isinstance(value, Config):
+                if isinstance(self.item_field, Schema):
+                    expected = self.item_field
+                else:
+                    expected = getattr(self.item_field, "__schema__", None)
+                if expected is not None and value._schema is not expected:
+                    # built from another schema: none of the item schema's constraints hold for it
+                    raise ValueError("invalid configuration object")
                 value._parent = self.cfg
                 value._key = self.list_field._key
                 value._container = self
